@@ -39,6 +39,7 @@ deriving DecidableEq, Repr, Inhabited
 inductive Reject
   | suBlockHash | suNewRoot | classHash | txReceiptLen | receiptTxHash | txHash | blockHash
   | version | number | parent | state
+  | malformed
 deriving DecidableEq, Repr, Inhabited
 
 /-- `core.VerifyClassHashes`: Cairo-0 classes are skipped. -/
@@ -74,10 +75,22 @@ def tryFallbacks (net : Net) (b : Block) (sd : StateDiff) (skip : Bool) : List T
     | none => .error .blockHash
     | some h => if h = b.header.hash then .ok () else if skip then .ok () else tryFallbacks net b sd skip rest
 
+/-- SWITCH (the model follows the code). `false`: `/repo` as it is — `VerifyBlockHash` does not look at the
+calldata of L1-handler transactions, so a self-consistent block with an L1 handler WITHOUT calldata
+passes and `Store` then panics in `MessageHash` (`ModelStore.lean`, `RejectS.panicL1`). `true`: with
+`proposed-fixes/C02-store-panics-on-l1-handler-without-calldata.diff` the block is rejected as malformed. -/
+def l1CalldataChecked : Bool := true
+
+/-- an L1-handler transaction whose calldata is empty (no L1 sender address) -/
+def l1NoCalldata : Tx → Bool
+  | .l1Handler l => l.callData.isEmpty
+  | _ => false
+
 /-- `core.VerifyBlockHash`. -/
 def verifyBlockHash (net : Net) (b : Block) (sd : StateDiff) : Except Reject Unit :=
   if b.txs.length ≠ b.receipts.length then .error .txReceiptLen
   else if !(List.zip b.txs b.receipts).all (fun tr => tr.1.hash == some tr.2.txHash) then .error .receiptTxHash
+  else if l1CalldataChecked && b.txs.any l1NoCalldata then .error .malformed
   else
     let skip := inUnverifiable net b.header.number
     match (if skip then .ok () else verifyTransactionsE net.chainId b.txs b.header.version) with
